@@ -456,7 +456,7 @@ def kind_fn(text):
         s = re.sub(r"(\(&\*\*\w+\)|\b\w+\b)\s*==\s*(\(&\*\*\w+\)|\b\w+\b)", r"kind_eq(\1, \2)", s)
         return s
     helper, b = fix(helper), fix(b)
-    if re.search(r"\bfn\b|\bas_ref\b|==", b) or "==" in helper:
+    if re.search(r"\bfn\b|\bas_ref\b|==(?!\s*\d)", b) or "==" in helper:
         raise AnchorLost("fsm_argument_kind_matches: statements outside the transcription rules")
     return ("fn strip_references<'a>(kind: &'a ValueKind) -> (r: &'a ValueKind)\n  ensures *r == strip(*kind),\n  decreases *kind,\n" + helper + "\n"
             "fn fsm_argument_kind_matches(expected: &ValueKind, actual: &ValueKind) -> (r: bool)\n  ensures r == kind_fits(*expected, *actual),\n{\n" + b + "\n}\n")
